@@ -149,6 +149,31 @@ fn main() {
         eprintln!("watchdog: check exceeded {limit}s - inconclusive");
         std::process::exit(2);
     });
+    // regression tier: committed replay files replays/<id>/reg-*.json (shrunk failures of defects repaired earlier,
+    // cases that once raised a false alarm) are judged first, bypassing the generators (C02 runs its own inside the check)
+    let mut regressions_failed = false;
+    if entry.id != "C02" {
+        let dir = mqtt_verif::runner::verif_root().join("replays").join(entry.id);
+        let mut files: Vec<_> = std::fs::read_dir(&dir)
+            .map(|rd| rd.filter_map(Result::ok).map(|e| e.path()).filter(|p| p.file_name().and_then(|n| n.to_str()).is_some_and(|n| n.starts_with("reg-") && n.ends_with(".json"))).collect())
+            .unwrap_or_default();
+        files.sort();
+        let n = files.len();
+        for f in files {
+            let path = f.to_string_lossy().into_owned();
+            match (entry.replay)(&path) {
+                0 => {}
+                1 => regressions_failed = true,
+                _ => {
+                    eprintln!("regression input {path} could not be replayed");
+                    std::process::exit(2);
+                }
+            }
+        }
+        if n > 0 {
+            println!("{} regression inputs: {n} replayed, failed: {regressions_failed}", entry.id);
+        }
+    }
     let code = (entry.run)(&ctx, started);
-    std::process::exit(code);
+    std::process::exit(if regressions_failed && code == 0 { 1 } else { code });
 }
